@@ -805,7 +805,7 @@ func (x *Exec) evalCall(env *Env, e *Expr) Value {
 			a, b := args[0].Name, args[1].Name
 			last := -1
 			for i, ev := range env.St.Events {
-				if strings.HasPrefix(ev, a) {
+				if eventMatch(ev, a) {
 					last = i
 				}
 			}
@@ -813,7 +813,7 @@ func (x *Exec) evalCall(env *Env, e *Expr) Value {
 				return Scalar{TTrue, tyBool}
 			}
 			for _, ev := range env.St.Events[last+1:] {
-				if strings.HasPrefix(ev, b) {
+				if eventMatch(ev, b) {
 					return Scalar{TTrue, tyBool}
 				}
 			}
@@ -821,7 +821,7 @@ func (x *Exec) evalCall(env *Env, e *Expr) Value {
 		case "eventCount":
 			n := int64(0)
 			for _, ev := range env.St.Events {
-				if strings.HasPrefix(ev, args[0].Name) {
+				if eventMatch(ev, args[0].Name) {
 					n++
 				}
 			}
@@ -1191,4 +1191,19 @@ func (x *Exec) assumeImplements(st *State, text string, ct types.Type) {
 		}
 	}
 	st.Assume(Eq(App("implements$"+text, SBool, IntC(x.typeTag(ct))), Bool(all)))
+}
+
+// eventMatch: prefix match that respects identifier boundaries ("invoke:Write" does not match
+// "invoke:WriteHeader"; "call:(*Signal)" matches "call:(*Signal).Set").
+func eventMatch(ev, pat string) bool {
+	if !strings.HasPrefix(ev, pat) {
+		return false
+	}
+	if len(ev) == len(pat) || len(pat) == 0 {
+		return true
+	}
+	isWord := func(c byte) bool {
+		return c == '_' || c >= '0' && c <= '9' || c >= 'a' && c <= 'z' || c >= 'A' && c <= 'Z'
+	}
+	return !(isWord(pat[len(pat)-1]) && isWord(ev[len(pat)]))
 }
